@@ -92,7 +92,7 @@ JudgeDrawing(sc, d, img, w0, w1, r, rowcap) ==
   IN
   IF ~pre THEN [img |-> fb, v |-> <<>>, skip |-> TRUE] ELSE
   [img |-> exp, skip |-> FALSE,
-   v |-> Chk(r.res = "ok", r, CallProps(sc, d, r) \cup (IF inb THEN {"C01"} ELSE {}),
+   v |-> Chk(r.res = "ok", r, CallProps(sc, d, r) \cup (IF inb THEN {"C01"} ELSE {}) \cup (IF d.faulted THEN {"C12"} ELSE {}),
              "drawing call did not return Ok with fault-free mocks: " \o r.res \o " " \o r.pmsg \o " " \o r.ploc)
       \o Chk(r.res # "ok" \/ fb = exp, r, pfb, "framebuffer differs from the expected picture")
       \o Chk(r.res # "ok" \/ \A c \in DOMAIN fb : InWindow(cfg, c), r,
@@ -176,7 +176,7 @@ JudgeOther(sc, d, w0, w1, r) ==
       One(op, p) == Len(cm) = 1 /\ cm[1].op = op /\ cm[1].n = Len(p) /\ cm[1].p = p
       slpOk == \A i \in 1 .. Len(w1.slpAt) : Elapsed120(w1.slpAt[i][1], w1.slpAt[i][2], w1.us, w1.ns)
   IN
-  Chk(r.res = "ok", r, CallProps(sc, d, r), "call failed with fault-free mocks: " \o r.res \o " " \o r.pmsg \o " " \o r.ploc)
+  Chk(r.res = "ok", r, CallProps(sc, d, r) \cup (IF d.faulted THEN {"C12"} ELSE {}), "call failed with fault-free mocks: " \o r.res \o " " \o r.pmsg \o " " \o r.ploc)
   \o (IF r.res # "ok" THEN <<>> ELSE
   CASE n = "set_orientation" ->
          LET o == [rot |-> a.rot, mir |-> a.mir] IN
